@@ -14,11 +14,52 @@ let run_contains toks =
       id (bool_s (contains_spec c nd))
   | _ -> failwith "bad contains line"
 
+(* "case <id> <stack>" ... item lines ... "end" *)
+let run_case_block id stackdesc (lines : string list) =
+  let k = Fsdriver.parse_stack stackdesc in
+  let items = List.map (fun l -> Fsdriver.parse_item (tokens l)) lines in
+  let out = run_case k items in
+  List.iteri (fun i t -> Printf.printf "M %s#%d %s\n" id i (Fsdriver.canon_tres t)) out
+
+(* "fcase <id> <content hex> <handles: w|r|wc|rc,...>" ... op lines ("." "-" op) ... "end":
+   one in-memory file with k handles; prints the Go-level model (M) and the byte-array spec (S) *)
+let run_fcase id content hspec (lines : string list) =
+  let spec = List.map (fun h -> (String.length h > 0 && h.[0] = 'r', String.length h > 1 && h.[1] = 'c'))
+      (split_on ',' hspec) in
+  let ops = List.map (fun l -> match Fsdriver.parse_item (tokens l) with
+      | IOp (_, _, o) -> o | _ -> failwith "fcase: op expected") lines in
+  let c = bytes_of_hex content in
+  let (_, outs) = run_steps mf_step (mf_init c spec) ops in
+  let (_, souts) = bf_run (bf_init c spec) ops in
+  List.iteri (fun i (o, r) ->
+      Printf.printf "M %s#%d %s\n" id i (Fsdriver.canon_res r);
+      Printf.printf "M %s#%d/p %s\n" id i (Fsdriver.canon_pres (proj o r))) (List.combine ops outs);
+  List.iteri (fun i p -> Printf.printf "S %s#%d/p %s\n" id i (Fsdriver.canon_pres p)) souts
+
+let () =
+  Registry.register_line "contains" run_contains;
+  Registry.register_block "case" (fun hd body -> match hd with
+      | [id; stackdesc] -> run_case_block id stackdesc body | _ -> failwith "bad case header");
+  Registry.register_block "fcase" (fun hd body -> match hd with
+      | [id; content; hspec] -> run_fcase id content hspec body | _ -> failwith "bad fcase header")
+
 let () =
   let path = Sys.argv.(1) in
-  List.iter (fun line ->
-    match tokens line with
+  let rec go lines =
+    match lines with
     | [] -> ()
-    | "contains" :: rest -> run_contains rest
-    | t :: _ -> failwith ("unknown case kind " ^ t))
-    (read_lines path)
+    | line :: rest ->
+      (match tokens line with
+       | [] -> go rest
+       | kind :: hd when Hashtbl.mem Registry.block_kinds kind ->
+         let rec take acc = function
+           | "end" :: tl -> (List.rev acc, tl)
+           | l :: tl -> take (l :: acc) tl
+           | [] -> failwith "unterminated case" in
+         let (body, tl) = take [] rest in
+         (Hashtbl.find Registry.block_kinds kind) hd body; go tl
+       | kind :: r when Hashtbl.mem Registry.line_kinds kind ->
+         (Hashtbl.find Registry.line_kinds kind) r; go rest
+       | t :: _ -> failwith ("unknown case kind " ^ t))
+  in
+  go (read_lines path)
